@@ -155,7 +155,15 @@ func verifC10Run(rt *rapid.T, c *kit.Case, snapshotDir func() string) {
 		// blocks before the request: some final, some not (those can be finalized or rolled back in the burst)
 		for i, n := 0, rapid.IntRange(1, 4).Draw(rt, "blocksBefore"); i < n; i++ {
 			if s.unfinalized() < 4 {
-				s.execBlock(s.g.genBlock(rt, s.cur, 3), "block")
+				// one block in four changes nothing: baseProcessor.commitAll (baseProcess.go:1127) calls
+				// AccountsDB.Commit for every block, also for blocks without transactions, so the same root is
+				// committed again (and registered again in the checkpoint hashes holder)
+				if rapid.IntRange(0, 3).Draw(rt, "emptyBlock") == 0 {
+					s.execBlock(verifSBBlock{}, "emptyBlock")
+					c.Class("empty-block")
+				} else {
+					s.execBlock(s.g.genBlock(rt, s.cur, 3), "block")
+				}
 			}
 			if s.unfinalized() > 0 && rapid.Bool().Draw(rt, "finalizeBefore") {
 				s.doFinalize()
@@ -251,7 +259,7 @@ func verifC10Run(rt *rapid.T, c *kit.Case, snapshotDir func() string) {
 			burstLen = 0
 		}
 		for i, n := 0, burstLen; i < n; i++ {
-			ev := rapid.SampledFrom([]string{"finalize", "finalize", "rollback", "block"}).Draw(rt, "burstEvent")
+			ev := rapid.SampledFrom([]string{"finalize", "finalize", "rollback", "block", "emptyBlock"}).Draw(rt, "burstEvent")
 			// the first two events are a commit and a prune call, so that both have a chance to land inside
 			// the snapshot window (which is short: small states)
 			if i == 0 {
@@ -270,6 +278,12 @@ func verifC10Run(rt *rapid.T, c *kit.Case, snapshotDir func() string) {
 				if fx.Tsm.IsPruningBlocked() && len(s.inQueue) <= before {
 					prunesDuring++ // a root left the queue => CancelPrune+PruneTrie were issued, and the snapshot was still running afterwards
 				}
+			case "emptyBlock":
+				if s.unfinalized() >= 5 {
+					continue
+				}
+				s.execBlock(verifSBBlock{}, "emptyBlock")
+				c.Class("empty-block")
 			case "rollback":
 				if s.unfinalized() == 0 {
 					continue
@@ -382,7 +396,7 @@ func TestVerifC10_SnapshotsAndCheckpoints(t *testing.T) {
 		dirFn = func() string { return t.TempDir() }
 	}
 	kit.Run(t, "C10", kit.Budget{Quick: 250, Thorough: 1500},
-		"state of 3-30 accounts (about 1/3 with data tries of 1-7 keys) built by the block simulator (pruning queue 0..2, eviction list cache 1..100, checkpoint hashes holder large or 300..6000 bytes, snapshot DBs in memory, thorough also LevelDB); 1-3 rounds of: 0-4 blocks (some final), SnapshotState/SetStateCheckpoint of a live root (last final / queued / not final), immediately 0-6 finalize/rollback/block events, wait (poll, timeout = inconclusive), rebuild the state from the snapshot database returned by GetSnapshotThatContainsHash(root) alone and compare with the model of root. 1 round in 5 is a fault round instead: the read of one main-trie node of the requested root fails once in the main database while the operation runs (no other events), the operation is not verified, the same request is repeated fault-free (after 0-2 blocks) and must be complete. non-trivial = a verified round with >=2 data tries in the snapshotted state and either >=1 commit and >=1 prune call issued while the snapshot was still running, or a fault that fired; distinct by event history",
+		"state of 3-30 accounts (about 1/3 with data tries of 1-7 keys) built by the block simulator (pruning queue 0..2, eviction list cache 1..100, checkpoint hashes holder large or 300..6000 bytes, snapshot DBs in memory, thorough also LevelDB); 1-3 rounds of: 0-4 blocks (some final), SnapshotState/SetStateCheckpoint of a live root (last final / queued / not final), immediately 0-6 finalize/rollback/block events, wait (poll, timeout = inconclusive), rebuild the state from the snapshot database returned by GetSnapshotThatContainsHash(root) alone and compare with the model of root. one block in four is empty (the same root is committed again). 1 round in 5 is a fault round instead: the read of one main-trie node of the requested root fails once in the main database while the operation runs (no other events), the operation is not verified, the same request is repeated fault-free (after 0-2 blocks) and must be complete. non-trivial = a verified round with >=2 data tries in the snapshotted state and either >=1 commit and >=1 prune call issued while the snapshot was still running, or a fault that fired; distinct by event history",
 		func(rt *rapid.T, c *kit.Case) { verifC10Run(rt, c, dirFn) })
 }
 
